@@ -32,7 +32,7 @@ def main():
                     continue
                 t0 = time.time()
                 env = dict(os.environ, VERIF_REPO=wt, VERIF_BUILD=bd, VERIF_EVIDENCE=os.path.join(bd, 'evidence'))
-                cmd = [os.path.join(VERIF, 'bin', 'check'), p, '--tier', 'quick'] + (['--no-kani'] if nokani else [])
+                cmd = [os.path.join(VERIF, 'bin', 'check'), p, '--tier', 'quick', '--repo', wt] + (['--no-kani'] if nokani else [])
                 pr = subprocess.run(cmd, env=env, stdout=subprocess.PIPE, stderr=subprocess.STDOUT, text=True)
                 lines = [l for l in pr.stdout.split('\n') if l.startswith(('VIOLATION', 'UNDECIDED', 'KNOWN'))]
                 detail = []
